@@ -141,7 +141,8 @@ def build_harness(variant="san"):
         if p.returncode != 0:
             raise BuildError("lib/vorbisenc.c does not compile inside the harness unit:\n" + p.stderr[-3000:])
         cmd = ["gcc", "-D" + GUARD, "-DVARIANT_" + variant.upper(), "-I" + os.path.join(REPO, "include"),
-               "-I" + os.path.join(REPO, "lib"), "-I" + os.path.join(VERIF, "harness"), "-w"] + flags + \
+               "-I" + os.path.join(REPO, "lib"), "-I" + os.path.join(VERIF, "harness"), "-w",
+               "-Werror=implicit-function-declaration"] + flags + \
               [os.path.join(VERIF, "harness", "vharn.c"), encu] + objs + ["-o", exe + ".tmp", "-logg", "-lm", "-lpthread"]
         p = sh(cmd)
         try:
